@@ -223,3 +223,62 @@ pub fn run_entnames(out: &mut Out) {
         out.raw(&j.to_string());
     }
 }
+
+/// the entity scanner: random static attribute values over an alphabet rich in `&`, `#`, `x`, digits,
+/// letters and `;` (no double quote, no `{{`), decoded by the parser
+pub fn run_entscan(tier: &str, seed: u64, out: &mut Out) {
+    use glass_easel_template_compiler::parse::tag::{ElementKind, Node, Value};
+    let mut rng = Rng::new(seed ^ 0xe27);
+    let n = if tier == "thorough" { 200_000 } else { 25_000 };
+    let alphabet: Vec<&str> = vec!["&", "&", "&", "#", "#", "x", "X", ";", ";", "0", "1", "9", "a", "f", "g", "A", "F", "l", "t", "amp", "lt", "gt", "quot",
+                                   "frac12", "nbsp", "fjlig", "bogus", "{", "}", " ", "<", ">", "'", "é", "\u{1f600}", "123", "x41", "110000", "d800", "+", "-", "="];
+    let fixed = ["&lt;", "&amp;lt;", "&#123;{", "&#x41;", "&#65;", "&#x;", "&#;", "&;", "&", "&#", "&#x", "&a", "&a;", "&amp", "&#x110000;", "&#xd800;",
+                 "&#99999999999;", "&#+65;", "&#x+41;", "&frac12;", "&fjlig;", "&1a;", "&#65", "a&#65;b&lt;c&", "&&amp;;", "&#x4g;", "&#6a;"];
+    let mut texts: Vec<String> = fixed.iter().map(|s| s.to_string()).collect();
+    for _ in 0..n {
+        let k = 1 + rng.below(7);
+        let mut s = String::new();
+        for _ in 0..k {
+            s.push_str(*rng.pick(&alphabet));
+        }
+        if s.contains("{{") {
+            continue;
+        }
+        texts.push(s);
+    }
+    for t in texts {
+        let src = format!("<v a=\"{}\"/>", t);
+        let (tree, _) = glass_easel_template_compiler::parse::parse("p", &src);
+        let got = match tree.content.get(0) {
+            Some(Node::Element(el)) => match &el.kind {
+                ElementKind::Normal { attributes, .. } => match attributes.get(0).and_then(|a| a.value.as_ref()) {
+                    Some(Value::Static { value, .. }) => Some(value.to_string()),
+                    _ => None,
+                },
+                _ => None,
+            },
+            _ => None,
+        };
+        let Some(got) = got else { continue };
+        // the named references occurring in the text, as the implementation's table decodes them
+        let mut named = vec![];
+        let b: Vec<char> = t.chars().collect();
+        let mut i = 0;
+        while i < b.len() {
+            if b[i] == '&' {
+                let mut j = i + 1;
+                while j < b.len() && b[j].is_ascii_alphanumeric() {
+                    j += 1;
+                }
+                if j < b.len() && b[j] == ';' && j > i + 1 {
+                    let e: String = b[i..=j].iter().collect();
+                    if let Some(d) = hooks::entities_decode(&e) {
+                        named.push(format!("{}={}", enc(&e), enc(&d)));
+                    }
+                }
+            }
+            i += 1;
+        }
+        out.case(&["entscan", &named.join("+"), &enc(&t)], &enc(&got));
+    }
+}
